@@ -49,7 +49,7 @@ class Expander:
 					targets = [n.target]
 				for t in targets:
 					for x in ast.walk(t):
-						if isinstance(x, ast.Name):
+						if isinstance(x, ast.Name) and isinstance(x.ctx, (ast.Store, ast.Del)):
 							counts[x.id] = counts.get(x.id, 0) + 1
 				if isinstance(n, (ast.Assign, ast.AnnAssign)) and getattr(n, 'value', None) is not None:
 					tgt = n.targets[0] if isinstance(n, ast.Assign) and len(n.targets) == 1 else (n.target if isinstance(n, ast.AnnAssign) else None)
